@@ -14,6 +14,7 @@ import (
 	"github.com/ipld/go-ipld-prime/datamodel"
 	"github.com/storacha/go-ucanto/client"
 	"github.com/storacha/go-ucanto/core/car"
+	"github.com/storacha/go-ucanto/core/dag/blockstore"
 	"github.com/storacha/go-ucanto/core/delegation"
 	"github.com/storacha/go-ucanto/core/invocation"
 	"github.com/storacha/go-ucanto/core/invocation/ran"
@@ -40,7 +41,7 @@ func init() {
 
 var respKinds = []string{
 	"empty-batch", "empty-report", "foreign-report", "normal", "bare-ran", "missing-receipt-block", "missing-invocation-block",
-	"receipt-not-a-receipt", "receipt-no-issuer", "receipt-bad-issuer", "receipt-empty-sig", "receipt-fx", "report-nil-value",
+	"receipt-not-a-receipt", "receipt-empty-out", "receipt-no-issuer", "receipt-bad-issuer", "receipt-empty-sig", "receipt-fx", "report-nil-value",
 	"root-not-message", "no-roots", "two-roots", "garbage", "empty-body", "truncated", "flipped",
 }
 
@@ -188,6 +189,16 @@ func respBody(kind string, r *rand.Rand) ([]byte, []ipld.Link) {
 	case "receipt-not-a-receipt":
 		rt := encodeMsgRoot([]ipld.Link{}, reportFor(inv.Link(), inv.Link()))
 		return carOf([]ipld.Link{rt.Link()}, append(rcptBlocks(normalRcpt()), rt)), lookups
+	case "receipt-empty-out":
+		// a receipt whose result carries neither ok nor error
+		om := rdm.OutcomeModel[ipld.Node, ipld.Node]{Ran: inv.Link(), Out: rdm.ResultModel[ipld.Node, ipld.Node]{}}
+		rm := rdm.ReceiptModel[ipld.Node, ipld.Node]{Ocm: om, Sig: []byte{}}
+		rr, err := block.Encode(&rm, rdm.TypeSystem().TypeByName("Receipt"), cbor.Codec, sha256.Hasher)
+		if err != nil {
+			panic(err)
+		}
+		rt := encodeMsgRoot([]ipld.Link{}, reportFor(inv.Link(), rr.Link()))
+		return carOf([]ipld.Link{rt.Link()}, []ipld.Block{rr, rt, inv.Root()}), lookups
 	case "receipt-no-issuer":
 		rr := rawReceipt(nil, []byte{}, inv.Link())
 		rt := encodeMsgRoot([]ipld.Link{}, reportFor(inv.Link(), rr.Link()))
@@ -285,45 +296,57 @@ func execResp(a []string) (res Result) {
 		step = "Invocations()"
 		_ = am.Invocations()
 	}
-	for _, rl := range rlinks {
-		step = "ReceiptReader.Read(" + rl.String() + ")"
-		rc, err := rdr.Read(rl, resp.Blocks())
+	type anyRcpt = receipt.Receipt[ipld.Node, ipld.Node]
+	var readers []func(rl ipld.Link) (anyRcpt, error)
+	readers = append(readers, func(rl ipld.Link) (anyRcpt, error) { return rdr.Read(rl, resp.Blocks()) })
+	readers = append(readers, func(rl ipld.Link) (anyRcpt, error) {
+		br, err := blockstore.NewBlockReader(blockstore.WithBlocksIterator(resp.Blocks()))
 		if err != nil {
-			trace = append(trace, "read=err")
-			continue
+			return nil, err
 		}
-		trace = append(trace, "read=ok")
-		step = "Receipt.Out"
-		result.MatchResultR0(rc.Out(), func(o ipld.Node) { nodeKind(o) }, func(x ipld.Node) { nodeKind(x) })
-		step = "Receipt.Ran"
-		_ = rc.Ran().Link()
-		step = "Receipt.Issuer"
-		if p := rc.Issuer(); p != nil {
-			_ = p.DID().String()
-		}
-		step = "Receipt.Fx"
-		e := rc.Fx()
-		for _, f := range e.Fork() {
-			_ = f.Link()
-		}
-		_ = e.Join()
-		step = "Receipt.Meta"
-		_ = rc.Meta()
-		step = "Receipt.Proofs"
-		for _, p := range rc.Proofs() {
-			_ = p.Link()
-		}
-		step = "Receipt.Signature"
-		s := rc.Signature()
-		_, _, _ = s.Code(), s.Size(), s.Raw()
-		step = "Receipt.Blocks"
-		for _, err := range rc.Blocks() {
+		return receipt.NewReceipt[ipld.Node, ipld.Node](rl, br, rdm.TypeSystem().TypeByName("Receipt"))
+	})
+	for _, rl := range rlinks {
+		for ri, read := range readers {
+			step = fmt.Sprintf("reading receipt %s with reader %d", rl.String(), ri)
+			rc, err := read(rl)
 			if err != nil {
-				break
+				trace = append(trace, "read=err")
+				continue
 			}
+			trace = append(trace, "read=ok")
+			step = "Receipt.Out"
+			result.MatchResultR0(rc.Out(), func(o ipld.Node) { nodeKind(o) }, func(x ipld.Node) { nodeKind(x) })
+			step = "Receipt.Ran"
+			_ = rc.Ran().Link()
+			step = "Receipt.Issuer"
+			if p := rc.Issuer(); p != nil {
+				_ = p.DID().String()
+			}
+			step = "Receipt.Fx"
+			e := rc.Fx()
+			for _, f := range e.Fork() {
+				_ = f.Link()
+			}
+			_ = e.Join()
+			step = "Receipt.Meta"
+			_ = rc.Meta()
+			step = "Receipt.Proofs"
+			for _, p := range rc.Proofs() {
+				_ = p.Link()
+			}
+			step = "Receipt.Signature"
+			s := rc.Signature()
+			_, _, _ = s.Code(), s.Size(), s.Raw()
+			step = "Receipt.Blocks"
+			for _, err := range rc.Blocks() {
+				if err != nil {
+					break
+				}
+			}
+			step = "message.Build with the receipt"
+			_, _ = message.Build(nil, []receipt.AnyReceipt{rc})
 		}
-		step = "message.Build with the receipt"
-		_, _ = message.Build(nil, []receipt.AnyReceipt{rc})
 	}
 	return Result{Impl: "response", Oracle: "ok", Soft: strings.Join(trace, ",")}
 }
